@@ -57,3 +57,29 @@ PROPS["C03"] = {
     ],
     "assumptions": [],
 }
+
+PROPS["C15"] = {
+    "level": "proof",
+    "contracts": [
+        ("contracts.cross_dis", "xdis.cross_dis:xstack_effect"),
+    ],
+    "assumptions": ["closed forms of CPython's stack_effect are selected from a template family by agreement with the real interpreters on sampled operands (spec/stack_effect.py); operands >= 2**30 are outside the domain (C int overflow in CPython)"],
+}
+
+PROPS["C08"] = {
+    "level": "proof",
+    "exhaustive": True,
+    "contracts": [],
+    "ground": [("ground.c08", "check")],
+    "explanation": "finite tables: every obligation is a closed formula over /repo's current tables, decided by evaluating the real functions exhaustively (65536 magic ints, every registry row, every accepted magic, every release name)",
+    "assumptions": [],
+}
+
+PROPS["C09"] = {
+    "level": "proof",
+    "exhaustive": True,
+    "contracts": [],
+    "ground": [("ground.c09", "check")],
+    "explanation": "finite tables: data-structure invariants of every opcode table (39 tables x every opcode slot x 7 category sets) and equality with the `opcode` module of the 9 installed CPythons, decided by exhaustive evaluation of /repo's tables as imported",
+    "assumptions": [],
+}
